@@ -77,6 +77,7 @@ func waitNoGoroutines(bound time.Duration, markers ...string) (int, []string) {
 }
 
 func runC09(c *core.Ctx) {
+	kafka.VerifSetPoints(wHookPoints())
 	c.Cases("wclose", c.N(260, 12000), func(k *core.Case) { c09Writer(k) })
 	c.Cases("rclose", c.N(160, 7000), func(k *core.Case) { c09Reader(k) })
 	c.Cases("transport", c.N(60, 3000), func(k *core.Case) { c09Transport(k) })
@@ -92,7 +93,7 @@ func c09Reader(k *core.Case) {
 	group := r.Bool()
 	placement := core.Pick(r, "idle-at-log-end", "mid-stream", "blocked-fetch", "cancel-blocked-fetch", "silent-broker", "unreachable-leader")
 	if group {
-		placement = core.Pick(r, "idle-at-log-end", "mid-stream", "during-rebalance", "cancel-blocked-commit", "blocked-fetch", "silent-coordinator")
+		placement = core.Pick(r, "idle-at-log-end", "mid-stream", "during-rebalance", "rebalance-slow-commit", "cancel-blocked-commit", "blocked-fetch", "silent-coordinator")
 	}
 	net := fakenet.New()
 	cl := fakecluster.New(net)
@@ -119,6 +120,7 @@ func c09Reader(k *core.Case) {
 	}
 	k.Describe(map[string]any{"list": "rclose", "group": group, "placement": placement, "brokers": nb, "partitions": nparts, "records_per_partition": per})
 	var silent int32
+	slowCommit := time.Duration(r.Range(40, 160)) * time.Millisecond
 	cl.Script = func(rc *fakecluster.ReqCtx) *fakecluster.Action {
 		if atomic.LoadInt32(&silent) == 0 {
 			return nil
@@ -131,6 +133,12 @@ func c09Reader(k *core.Case) {
 		case "silent-coordinator":
 			if rc.Ev.API == fakecluster.KHeartbeat || rc.Ev.API == fakecluster.KOffsetCommit || rc.Ev.API == fakecluster.KJoinGroup {
 				return &fakecluster.Action{Kind: fakecluster.ActIgnore}
+			}
+		case "rebalance-slow-commit":
+			// the final commit of the generation that a rebalance ends is answered late: the generation's
+			// commit loop is still busy when the member has re-joined (and when Close is called)
+			if rc.Ev.API == fakecluster.KOffsetCommit {
+				return &fakecluster.Action{Delay: slowCommit}
 			}
 		}
 		return nil
@@ -146,6 +154,9 @@ func c09Reader(k *core.Case) {
 		cfg.RebalanceTimeout = 300 * time.Millisecond
 		cfg.JoinGroupBackoff = 5 * time.Millisecond
 		cfg.CommitInterval = time.Duration(core.Pick(r, 0, 0, 10)) * time.Millisecond
+		if placement == "rebalance-slow-commit" {
+			cfg.CommitInterval = time.Duration(core.Pick(r, 5, 20, 1000)) * time.Millisecond
+		}
 	} else {
 		cfg.Partition = r.Intn(nparts)
 		if r.Chance(1, 3) {
@@ -217,6 +228,13 @@ func c09Reader(k *core.Case) {
 		waitDelivered(r.Intn(total + 1))
 		cl.GroupRebalance("g")
 		time.Sleep(time.Duration(r.Intn(4000)) * time.Microsecond)
+	case "rebalance-slow-commit":
+		if total > 0 {
+			waitDelivered(r.Range(1, total/2+1))
+		}
+		atomic.StoreInt32(&silent, 1)
+		cl.GroupRebalance("g")
+		time.Sleep(time.Duration(r.Range(5, 200)) * time.Millisecond)
 	case "silent-broker", "silent-coordinator":
 		waitDelivered(r.Intn(total/2 + 1))
 		atomic.StoreInt32(&silent, 1)
